@@ -23,25 +23,32 @@ fn js(stream: &[Elt]) -> Value {
     json!(stream.iter().map(|e| json!([e.q, e.t, e.w, e.d])).collect::<Vec<_>>())
 }
 
-fn gen_stream(rng: &mut Rng, small: bool) -> Vec<Elt> {
+fn gen_stream(rng: &mut Rng, small: bool, tbase: u64, near_ties: bool) -> Vec<Elt> {
     let nq = 1 + rng.usize(if small { 2 } else { 6 });
     let nt = 1 + rng.usize(if small { 3 } else { 6 });
     let mut s = vec![];
     let dens = rng.uniform(0.3, 1.0);
     for q in 0..nq {
         for t in 0..nt {
-            if !rng.chance(dens) {
+            if !rng.chance(dens) || (1 + q as u64) == (tbase + 1 + t as u64) {
                 continue;
             }
             let k = if small { rng.usize(3) } else { rng.usize(6) };
             // one positional weight per pair (the engines take the pair's weight from any element)
             let w = if rng.chance(0.85) { Some((rng.uniform(0.05, 0.95) * 1000.0).round() as f32 / 1000.0) } else { None };
             if k == 0 && rng.chance(0.5) {
-                s.push(Elt { q: 1 + q as u64, t: 101 + t as u64, w, d: None });
+                s.push(Elt { q: 1 + q as u64, t: tbase + 1 + t as u64, w, d: None });
             }
             for _ in 0..k {
-                let d = if rng.chance(0.08) { None } else { Some(rng.uniform(0.0, 2.0) as f32) };
-                s.push(Elt { q: 1 + q as u64, t: 101 + t as u64, w, d });
+                let d = if rng.chance(0.08) {
+                    None
+                } else if near_ties {
+                    // claims whose weights differ only by a few f32 ulps: still ordered by weight
+                    Some(f32::from_bits(0.5f32.to_bits() + rng.usize(6) as u32))
+                } else {
+                    Some(rng.uniform(0.0, 2.0) as f32)
+                };
+                s.push(Elt { q: 1 + q as u64, t: tbase + 1 + t as u64, w, d });
             }
         }
     }
@@ -276,12 +283,22 @@ fn main() {
     let cli = Cli::parse();
     let mut rep = Report::new("C17", &cli);
     rep.note("rule", json!("case = result stream over <= 6 queries x <= 6 tracks x 0..5 distances per pair (missing distances / missing weights included) with random N, min_votes, max_distance, threshold; every 4th case is a small stream (<= 7 elements) that is run in ALL its permutations, larger ones in 50 random permutations. TopN / BestFit / Hungarian (SortVoting) / VisualVoting outputs are compared with references written from the statement (filter <= max_distance, group, >= min_votes, weight = sum(max seen - d), order, top-N; a track goes to its greatest-weight claimant, every qualifying claim yields an element; Hungarian: every query of the stream gets one track or itself, no track twice, objective optimal) and with their own output on the permuted stream. Near-ties (weights within 1e-6 relative) downgrade the comparison and are counted. Non-trivial: at least two queries compete for one track with qualifying claims; distinct by stream hash."));
-    rep.note("assumptions", json!(["query ids and track ids are disjoint (as in the trackers)", "finite, non-negative distances and weights"]));
+    rep.note("assumptions", json!(["the tracker-specific engines (Hungarian, Visual) see disjoint query / track id spaces, as in the trackers; the generic engines (top-N, best-fit) are also run with overlapping id spaces", "finite, non-negative distances and weights", "weights are tied only when equal up to f64 summation rounding (1e-12 relative)"]));
     let n = cli.cases(6_000, 400_000);
     for idx in cli.index_range(n) {
         let mut rng = Rng::for_case(cli.seed, cli.shard, idx);
         let small = idx % 4 == 0;
-        let stream = gen_stream(&mut rng, small);
+        // 30% of the cases: query and track ids come from the same id space (as in an owned distance query), which the
+        // generic engines (top-N, best-fit) must handle; the tracker-specific engines always see disjoint ids
+        let overlap = rng.chance(0.3);
+        let near_ties = rng.chance(0.15);
+        let stream = gen_stream(&mut rng, small, if overlap { 0 } else { 100 }, near_ties);
+        if overlap {
+            rep.count("cases_with_overlapping_id_spaces");
+        }
+        if near_ties {
+            rep.count("cases_with_ulp_level_near_ties");
+        }
         let topn = 1 + rng.usize(4);
         let minv = 1 + rng.usize(3);
         let maxd = *rng.pick(&[0.3f32, 0.7, 1.0, 1.5, 5.0]);
@@ -290,8 +307,47 @@ fn main() {
         let ctx = json!({"stream[q,t,weight,distance]": js(&stream), "topn": topn, "min_votes": minv, "max_distance": maxd, "threshold": thr});
         let r_top = run_topn(&stream, topn, maxd, minv);
         check_topn(&mut rep, idx, &stream, topn, maxd, minv, &r_top, &ctx);
+        // exact ties between two claims of one query make the top-N order / cut arbitrary ("accepted either way")
+        let tie_t = {
+            let cl = claims(&stream, maxd, minv);
+            let mut per_q: BTreeMap<u64, Vec<f64>> = BTreeMap::new();
+            for ((q, _), (_, w)) in &cl {
+                per_q.entry(*q).or_default().push(*w);
+            }
+            per_q.values().any(|v| {
+                let mut v = v.clone();
+                v.sort_by(|a, b| a.partial_cmp(b).unwrap());
+                v.windows(2).any(|w| near(w[0], w[1]))
+            })
+        };
+        if tie_t {
+            rep.count("cases_with_exact_topn_tie");
+        }
         let r_best = run_best(&stream, maxd, minv);
         let tie_b = check_best(&mut rep, idx, &stream, maxd, minv, &r_best, &ctx);
+        if overlap {
+            // generic engines only
+            let perms: Vec<Vec<usize>> = (0..20).map(|_| {
+                let mut p: Vec<usize> = (0..stream.len()).collect();
+                rng.shuffle(&mut p);
+                p
+            }).collect();
+            for p in &perms {
+                let s2: Vec<Elt> = p.iter().map(|i| stream[*i]).collect();
+                rep.count("permuted_executions");
+                let t2 = run_topn(&s2, topn, maxd, minv);
+                if canon_top(&t2, true) != canon_top(&r_top, true) && !tie_t {
+                    rep.violation("C17/topn/order-dependent", idx, json!({"ctx": ctx, "perm": p, "base": r_top, "permuted": t2}));
+                    break;
+                }
+                let b2 = run_best(&s2, maxd, minv);
+                if canon_top(&b2, true) != canon_top(&r_best, true) && !tie_b {
+                    rep.violation("C17/bestfit/order-dependent", idx, json!({"ctx": ctx, "perm": p, "base": r_best, "permuted": b2}));
+                    break;
+                }
+            }
+            continue;
+        }
         let r_sort = run_sort(&stream, thr);
         let cs = check_sort(&stream, thr, &r_sort);
         if let Some(e) = &cs.error {
@@ -319,7 +375,7 @@ fn main() {
             let s2: Vec<Elt> = p.iter().map(|i| stream[*i]).collect();
             rep.count("permuted_executions");
             let t2 = run_topn(&s2, topn, maxd, minv);
-            if canon_top(&t2, false) != base_top && !tie_b && !tie_v {
+            if canon_top(&t2, false) != base_top && !tie_t {
                 // equal-weight neighbours inside one query's list may swap: accept if the sorted lists agree
                 if canon_top(&t2, true) != canon_top(&r_top, true) {
                     rep.violation("C17/topn/order-dependent", idx, json!({"ctx": ctx, "perm": p, "base": r_top, "permuted": t2}));
